@@ -143,14 +143,21 @@ pub fn c10_print_create(inp: &mut Inp) {
     let n = p.read(&mut got).unwrap();
     assert!(n == 2 && got[0] == pay[0] && got[1] == pay[1], "payload attached unmodified");
     core::mem::forget(p);
-    let r = IppOperationBuilder::create_job(uri()).job_name(ascii_str(&jt)).attribute(IppAttribute::new("copies", IppValue::Integer(v1))).build().into_ipp_request();
+    let r = IppOperationBuilder::create_job(uri())
+        .job_name(ascii_str(&jt))
+        .attribute(IppAttribute::new("copies", IppValue::Integer(v1)))
+        .attribute(IppAttribute::new("sides", IppValue::Integer(v3)))
+        .attribute(IppAttribute::new("copies", IppValue::Integer(v2)))
+        .build()
+        .into_ipp_request();
     header_ok(&r, 0x0005);
     assert!(r.attributes().groups().len() == 2);
     let g = group(&r, 0, DelimiterTag::OperationAttributes, 4);
     base_ok(g, true);
     name_attr(g, "job-name", &jt);
-    let j = group(&r, 1, DelimiterTag::JobAttributes, 1);
-    int_attr(j, "copies", v1);
+    let j = group(&r, 1, DelimiterTag::JobAttributes, 2);
+    int_attr(j, "copies", v2);
+    int_attr(j, "sides", v3);
     core::mem::forget(r);
     reached();
 }
